@@ -685,7 +685,7 @@ func (h *Harness) reflectObj(n *model.Node) interface{} {
 		if cv == nil {
 			continue
 		}
-		if h.TypedSlices && n.ID%2 == 0 {
+		if h.TypedSlices && (n.ID%2 == 0 || f.Name == "selfList") {
 			cv = typedSlice(cv)
 		}
 		goName := GoFieldName(f.Name)
